@@ -10,12 +10,39 @@ Lib/DecArith.vos Lib/DecArith.vok Lib/DecArith.required_vos: Lib/DecArith.v Lib/
 Lib/DecFacts.vo Lib/DecFacts.glob Lib/DecFacts.v.beautified Lib/DecFacts.required_vo: Lib/DecFacts.v Lib/Base.vo Lib/DecArith.vo
 Lib/DecFacts.vio: Lib/DecFacts.v Lib/Base.vio Lib/DecArith.vio
 Lib/DecFacts.vos Lib/DecFacts.vok Lib/DecFacts.required_vos: Lib/DecFacts.v Lib/Base.vos Lib/DecArith.vos
+Model/Guards.vo Model/Guards.glob Model/Guards.v.beautified Model/Guards.required_vo: Model/Guards.v Lib/Base.vo Lib/Atomic.vo
+Model/Guards.vio: Model/Guards.v Lib/Base.vio Lib/Atomic.vio
+Model/Guards.vos Model/Guards.vok Model/Guards.required_vos: Model/Guards.v Lib/Base.vos Lib/Atomic.vos
+Model/GuardsCheck.vo Model/GuardsCheck.glob Model/GuardsCheck.v.beautified Model/GuardsCheck.required_vo: Model/GuardsCheck.v Lib/Base.vo Lib/Atomic.vo Model/Guards.vo Gen/GuardTable.vo Gen/MsgTypes.vo Gen/WasmTable.vo Gen/SweepGuards.vo
+Model/GuardsCheck.vio: Model/GuardsCheck.v Lib/Base.vio Lib/Atomic.vio Model/Guards.vio Gen/GuardTable.vio Gen/MsgTypes.vio Gen/WasmTable.vio Gen/SweepGuards.vio
+Model/GuardsCheck.vos Model/GuardsCheck.vok Model/GuardsCheck.required_vos: Model/GuardsCheck.v Lib/Base.vos Lib/Atomic.vos Model/Guards.vos Gen/GuardTable.vos Gen/MsgTypes.vos Gen/WasmTable.vos Gen/SweepGuards.vos
 Model/Market.vo Model/Market.glob Model/Market.v.beautified Model/Market.required_vo: Model/Market.v Lib/Base.vo
 Model/Market.vio: Model/Market.v Lib/Base.vio
 Model/Market.vos Model/Market.vok Model/Market.required_vos: Model/Market.v Lib/Base.vos
+Proofs/GuardsProofs.vo Proofs/GuardsProofs.glob Proofs/GuardsProofs.v.beautified Proofs/GuardsProofs.required_vo: Proofs/GuardsProofs.v Lib/Base.vo Lib/Atomic.vo Model/Guards.vo
+Proofs/GuardsProofs.vio: Proofs/GuardsProofs.v Lib/Base.vio Lib/Atomic.vio Model/Guards.vio
+Proofs/GuardsProofs.vos Proofs/GuardsProofs.vok Proofs/GuardsProofs.required_vos: Proofs/GuardsProofs.v Lib/Base.vos Lib/Atomic.vos Model/Guards.vos
 Proofs/MarketProofs.vo Proofs/MarketProofs.glob Proofs/MarketProofs.v.beautified Proofs/MarketProofs.required_vo: Proofs/MarketProofs.v Lib/Base.vo Model/Market.vo
 Proofs/MarketProofs.vio: Proofs/MarketProofs.v Lib/Base.vio Model/Market.vio
 Proofs/MarketProofs.vos Proofs/MarketProofs.vok Proofs/MarketProofs.required_vos: Proofs/MarketProofs.v Lib/Base.vos Model/Market.vos
+Gen/GuardTable.vo Gen/GuardTable.glob Gen/GuardTable.v.beautified Gen/GuardTable.required_vo: Gen/GuardTable.v Model/Guards.vo
+Gen/GuardTable.vio: Gen/GuardTable.v Model/Guards.vio
+Gen/GuardTable.vos Gen/GuardTable.vok Gen/GuardTable.required_vos: Gen/GuardTable.v Model/Guards.vos
+Gen/MsgTypes.vo Gen/MsgTypes.glob Gen/MsgTypes.v.beautified Gen/MsgTypes.required_vo: Gen/MsgTypes.v Model/Guards.vo
+Gen/MsgTypes.vio: Gen/MsgTypes.v Model/Guards.vio
+Gen/MsgTypes.vos Gen/MsgTypes.vok Gen/MsgTypes.required_vos: Gen/MsgTypes.v Model/Guards.vos
+Gen/SweepGuards.vo Gen/SweepGuards.glob Gen/SweepGuards.v.beautified Gen/SweepGuards.required_vo: Gen/SweepGuards.v Model/Guards.vo
+Gen/SweepGuards.vio: Gen/SweepGuards.v Model/Guards.vio
+Gen/SweepGuards.vos Gen/SweepGuards.vok Gen/SweepGuards.required_vos: Gen/SweepGuards.v Model/Guards.vos
+Gen/WasmTable.vo Gen/WasmTable.glob Gen/WasmTable.v.beautified Gen/WasmTable.required_vo: Gen/WasmTable.v Model/Guards.vo
+Gen/WasmTable.vio: Gen/WasmTable.v Model/Guards.vio
+Gen/WasmTable.vos Gen/WasmTable.vok Gen/WasmTable.required_vos: Gen/WasmTable.v Model/Guards.vos
+Properties/C12.vo Properties/C12.glob Properties/C12.v.beautified Properties/C12.required_vo: Properties/C12.v Lib/Base.vo Lib/Atomic.vo Model/Guards.vo Model/GuardsCheck.vo Proofs/GuardsProofs.vo Gen/GuardTable.vo Gen/MsgTypes.vo Gen/WasmTable.vo
+Properties/C12.vio: Properties/C12.v Lib/Base.vio Lib/Atomic.vio Model/Guards.vio Model/GuardsCheck.vio Proofs/GuardsProofs.vio Gen/GuardTable.vio Gen/MsgTypes.vio Gen/WasmTable.vio
+Properties/C12.vos Properties/C12.vok Properties/C12.required_vos: Properties/C12.v Lib/Base.vos Lib/Atomic.vos Model/Guards.vos Model/GuardsCheck.vos Proofs/GuardsProofs.vos Gen/GuardTable.vos Gen/MsgTypes.vos Gen/WasmTable.vos
+Properties/C14.vo Properties/C14.glob Properties/C14.v.beautified Properties/C14.required_vo: Properties/C14.v Lib/Base.vo Lib/Atomic.vo Model/Guards.vo Model/GuardsCheck.vo Proofs/GuardsProofs.vo Model/Market.vo Gen/GuardTable.vo Gen/MsgTypes.vo Gen/SweepGuards.vo
+Properties/C14.vio: Properties/C14.v Lib/Base.vio Lib/Atomic.vio Model/Guards.vio Model/GuardsCheck.vio Proofs/GuardsProofs.vio Model/Market.vio Gen/GuardTable.vio Gen/MsgTypes.vio Gen/SweepGuards.vio
+Properties/C14.vos Properties/C14.vok Properties/C14.required_vos: Properties/C14.v Lib/Base.vos Lib/Atomic.vos Model/Guards.vos Model/GuardsCheck.vos Proofs/GuardsProofs.vos Model/Market.vos Gen/GuardTable.vos Gen/MsgTypes.vos Gen/SweepGuards.vos
 Properties/C17.vo Properties/C17.glob Properties/C17.v.beautified Properties/C17.required_vo: Properties/C17.v Lib/Base.vo Model/Market.vo Proofs/MarketProofs.vo
 Properties/C17.vio: Properties/C17.v Lib/Base.vio Model/Market.vio Proofs/MarketProofs.vio
 Properties/C17.vos Properties/C17.vok Properties/C17.required_vos: Properties/C17.v Lib/Base.vos Model/Market.vos Proofs/MarketProofs.vos
